@@ -7,7 +7,8 @@
 From Coq Require Import List Arith.
 From PM Require Import Model.Data Model.Mark Model.Tree Model.Step Spec.Tokens
   Proofs.ReplaceValid Proofs.SliceSides Proofs.TokenBasics Proofs.ReplaceTokens Proofs.SliceShape Proofs.TokenLaws
-  Proofs.AroundLaws.
+  Proofs.AroundLaws Proofs.ContentBetween Proofs.StructProofs.
+From PM Require Import Model.Resolve Model.StructOps.
 Import ListNotations.
 
 Theorem C12_structure_only_step_keeps_leaves : forall s from to sl structure doc d',
@@ -31,3 +32,51 @@ Theorem C12_structure_only_around_step_keeps_leaves : forall s from to gf gt sl 
   leaves (DT s d') = leaves (DT s doc).
 Proof. exact around_step_structure_only. Qed.
 Print Assumptions C12_structure_only_around_step_keeps_leaves.
+
+(* ---- the four structure operations themselves.  Model.StructOps models which step Transform.split / join /
+   lift / wrap hand to Transform.step (compared with the implementation on every run, Corr.Ops.CStruct).
+   Theorems: whenever that step applies, the sequence of text and leaf tokens of the document is EXACTLY
+   preserved.  For split and wrap nothing is deleted and the slice is a chain of empty copies / fresh
+   wrappers.  For join and lift the structure flag does the work: ReplaceStep / ReplaceAroundStep.apply refuse
+   a flagged step when content_between finds content in the replaced ranges, and content_between is proved to
+   answer "none" only for ranges made of close tokens followed by open tokens — for ranges that start at a
+   position that is not inside a text node (hypothesis; true of the positions these operations compute, which
+   are node boundaries), in schemas whose text type is a leaf type (hypothesis; always true of a Schema). *)
+Theorem C12_structure_flag_deletes_no_content : forall s doc from to r,
+  is_leaf_ty s (s_text s) = true ->
+  resolve s doc from = Ok r -> rp_text_offset r = 0 -> from <= to ->
+  content_between s doc from to = Ok false ->
+  leaves (seg (ftoks s (node_content doc)) from to) = [].
+Proof. intros s doc from to r H. exact (content_between_no_leaves s H doc from to r). Qed.
+Print Assumptions C12_structure_flag_deletes_no_content.
+
+Theorem C12_split_keeps_leaves : forall s doc pos depth st d',
+  check s doc = true -> split_step s doc pos depth = Ok st -> apply s st doc = ROk d' ->
+  leaves (DT s d') = leaves (DT s doc).
+Proof. exact split_step_structure_only. Qed.
+Print Assumptions C12_split_keeps_leaves.
+
+Theorem C12_wrap_keeps_leaves : forall s r ws doc st d',
+  check s doc = true -> (forall w, In w ws -> is_leaf_ty s (fst w) = false) ->
+  wrap_step s r ws = Ok st -> apply s st doc = ROk d' ->
+  (forall a b, nr_start r = Ok a -> nr_end s r = Ok b -> a <= b) ->
+  leaves (DT s d') = leaves (DT s doc).
+Proof. exact wrap_step_structure_only. Qed.
+Print Assumptions C12_wrap_keeps_leaves.
+
+Theorem C12_join_keeps_leaves : forall s, is_leaf_ty s (s_text s) = true -> forall doc pos depth st d' r,
+  check s doc = true -> join_step pos depth = Ok st -> apply s st doc = ROk d' ->
+  resolve s doc (pos - depth) = Ok r -> rp_text_offset r = 0 ->
+  leaves (DT s d') = leaves (DT s doc).
+Proof. exact join_step_structure_only. Qed.
+Print Assumptions C12_join_keeps_leaves.
+
+Theorem C12_lift_keeps_leaves : forall s, is_leaf_ty s (s_text s) = true -> forall doc rf rt depth target st d',
+  check s doc = true -> PathShape s rf -> PathShape s rt ->
+  lift_step s {| nr_from := rf; nr_to := rt; nr_depth := depth |} target = Ok st -> apply s st doc = ROk d' ->
+  (forall from to gf gt sl ins b, st = SReplaceAround from to gf gt sl ins b ->
+     gf <= gt /\ exists r1 r2, resolve s doc from = Ok r1 /\ rp_text_offset r1 = 0 /\
+                              resolve s doc gt = Ok r2 /\ rp_text_offset r2 = 0) ->
+  leaves (DT s d') = leaves (DT s doc).
+Proof. exact lift_step_structure_only. Qed.
+Print Assumptions C12_lift_keeps_leaves.
